@@ -7,6 +7,7 @@ declare -A OTHER=( [C01-D]=C17 [C03-D]=C05 [C06-C]=C14 [C11-D]=C17 [C19-A]=C10 [
 bad=0
 for d in seeded/*/; do
   s=$(basename $d); p=${OTHER[$s]:-${s%%-*}}
+  grep -q '"status": "neutralised' $d/meta.json && { echo "$s neutralised by a later repair: skipped"; continue; }
   r=$(tools/seedtest.sh $d/patch.diff $tier $p 2>&1 | grep '^== ')
   echo "$s $r"
   echo "$r" | grep -q "rc=1" || bad=$((bad+1))
